@@ -22,9 +22,12 @@
 //                 calls for real tests) is interrupted; `ticks T n ms` (informational) reports the number of
 //                 handler invocations during the test and its wall time.  (action `sleep MS`: the child sleeps)
 //   grp T G : test T belongs to group "gG" (adjacent tests with the same name form a group)
-//   cli     : the run goes through CommandLineTestRunner with argv {"runner", "-p"} (the registry is NOT
-//             put into separate-process mode by the harness) and a real ConsoleTestOutput whose
-//             PlatformSpecificFPuts seam appends to a file shared by parent and children
+//   cli [ARG...] : the run goes through CommandLineTestRunner with argv {"runner", ARG...} (bare `cli` = `-p`;
+//             the registry is NOT put into separate-process mode by the harness).  ARGs: `-p` (required, anywhere)
+//             and any of -c -v -vv -ojunit -oteamcity -r1 -b -s<seed> -ri -gg -nt -xgZZZ -xnZZZ, which do not
+//             change which tests run.  The runner creates its own Console/JUnit/TeamCity output (recording
+//             subclasses); PlatformSpecificFPuts appends to a file shared by parent and children, FOpen/FClose
+//             are stubbed (JUnit "files" go to the same capture).
 // observations after `> run`, per test in registry order:
 //   started T / forked T fail|ok|real / rwait T ... / starved T / consumed T n / conts T n /
 //   fail T <hex first line of the message> / ended T
@@ -45,6 +48,8 @@
 #include "CppUTest/TestResult.h"
 #include "CppUTest/TestPlugin.h"
 #include "CppUTest/CommandLineTestRunner.h"
+#include "CppUTest/JUnitTestOutput.h"
+#include "CppUTest/TeamCityTestOutput.h"
 #include "CppUTest/PlatformSpecificFunctions.h"
 
 namespace {
@@ -86,6 +91,9 @@ volatile sig_atomic_t g_deadline = 0;
 int g_marker_fd = -1;
 int g_console_fd = -1;               // cli mode: everything "printed to stdout" by parent and children
 bool g_cli = false;
+std::vector<std::string> g_cli_args;
+int g_rec_instances = 0;             // the first recording output created for a run is the one that records
+long g_rec_started = 0, g_rec_failures = 0;
 bool g_nproc0 = false;               // the case process can no longer fork (RLIMIT_NPROC 0, unprivileged)
 pid_t g_case_pid = 0;
 int (*g_tree_fork)(void) = 0;                    // the tree's own seam implementations
@@ -289,10 +297,13 @@ public:
 // ---------------------------------------------------------------- recording output
 
 template <class Base> class Recording : public Base {
+    bool primary_;
 public:
+    Recording() : primary_(g_rec_instances++ == 0) {}
     void printCurrentTestStarted(const UtestShell& test) CPPUTEST_OVERRIDE {
         Base::printCurrentTestStarted(test);
-        if (g_in_child) return;
+        if (g_in_child || !primary_) return;
+        g_rec_started++;
         g_cur = -1;
         for (size_t k = 0; k < g_shells.size(); k++) if (&test == g_shells[k]) g_cur = (int) k;
         g_sigconts = 0;
@@ -300,7 +311,7 @@ public:
     }
     void printCurrentTestEnded(const TestResult& res) CPPUTEST_OVERRIDE {
         Base::printCurrentTestEnded(res);
-        if (g_in_child) return;
+        if (g_in_child || !primary_) return;
         if (g_cur >= 0) {
             TestSpec& s = g_tests[(size_t) g_cur];
             if (g_timer_on) {
@@ -322,7 +333,8 @@ public:
     }
     void printFailure(const TestFailure& failure) CPPUTEST_OVERRIDE {
         Base::printFailure(failure);
-        if (g_in_child) return;
+        if (g_in_child || !primary_) return;
+        g_rec_failures++;
         std::string msg(failure.getMessage().asCharString());
         size_t nl = msg.find('\n');
         if (nl != std::string::npos) msg = msg.substr(0, nl);
@@ -343,7 +355,27 @@ public:
     CliRunner(int ac, const char* const* av, TestRegistry* r) : CommandLineTestRunner(ac, av, r) {}
 protected:
     TestOutput* createConsoleOutput() CPPUTEST_OVERRIDE { return new Recording<ConsoleTestOutput>; }
+    TestOutput* createTeamCityOutput() CPPUTEST_OVERRIDE { return new Recording<TeamCityTestOutput>; }
+    TestOutput* createJUnitOutput(const SimpleString& packageName) CPPUTEST_OVERRIDE {
+        Recording<JUnitTestOutput>* j = new Recording<JUnitTestOutput>;
+        j->setPackageName(packageName);
+        return j;
+    }
 };
+
+bool valid_cli_arg(const std::string& a) {
+    static const char* const fixed[] = { "-p", "-c", "-v", "-vv", "-ojunit", "-oteamcity", "-r1", "-b", "-ri", "-gg", "-nt",
+                                         "-xgZZZ", "-xnZZZ" };
+    for (size_t i = 0; i < sizeof fixed / sizeof fixed[0]; i++) if (a == fixed[i]) return true;
+    if (a.size() >= 3 && a.size() <= 7 && a[0] == '-' && a[1] == 's' && a[2] >= '1' && a[2] <= '9') {
+        for (size_t i = 3; i < a.size(); i++) if (a[i] < '0' || a[i] > '9') return false;
+        return true;
+    }
+    return false;
+}
+
+extern "C" PlatformSpecificFile seam_fopen(const char*, const char*) { return (PlatformSpecificFile) &g_console_fd; }
+extern "C" void seam_fclose(PlatformSpecificFile) { }
 
 extern "C" void seam_fputs(const char* str, PlatformSpecificFile) {
     if (g_console_fd >= 0) { ssize_t w = write(g_console_fd, str, strlen(str)); (void) w; }
@@ -388,7 +420,12 @@ void run_registry() {
     PlatformSpecificWaitPid = seam_waitpid;
     void (*savedFPuts)(const char*, PlatformSpecificFile) = PlatformSpecificFPuts;
     void (*savedFlush)(void) = PlatformSpecificFlush;
+    PlatformSpecificFile (*savedFOpen)(const char*, const char*) = PlatformSpecificFOpen;
+    void (*savedFClose)(PlatformSpecificFile) = PlatformSpecificFClose;
+    g_rec_instances = 0; g_rec_started = 0; g_rec_failures = 0;
     if (g_cli) {
+        PlatformSpecificFOpen = seam_fopen;
+        PlatformSpecificFClose = seam_fclose;
         g_console_fd = memfd_create("c11console", 0);
         PlatformSpecificFPuts = seam_fputs;
         PlatformSpecificFlush = seam_flush;
@@ -427,27 +464,34 @@ void run_registry() {
             out = output.getOutput().asCharString();
         }
         else {
-            const char* av[] = { "runner", "-p" };
+            std::vector<const char*> av;
+            av.push_back("runner");
+            for (size_t k = 0; k < g_cli_args.size(); k++) av.push_back(g_cli_args[k].c_str());
             int code;
+            g_rec_instances = 0;                 // the output the runner creates first is the recording one
             {
-                CliRunner runner(2, av, &registry);
+                CliRunner runner((int) av.size(), &av[0], &registry);
                 code = runner.runAllTestsMain();
             }
             alarm(0);
             reap_all();
             out = read_console();
-            // "Errors (F failures, T tests, R ran, ..." / "OK (T tests, R ran, ..."
-            unsigned long f = 0, t = 0, r = 0;
-            size_t pe = out.find("\nErrors ("), po = out.find("\nOK (");
-            if (pe != std::string::npos) sscanf(out.c_str() + pe, "\nErrors (%lu failures, %lu tests, %lu ran", &f, &t, &r);
-            else if (po != std::string::npos) sscanf(out.c_str() + po, "\nOK (%lu tests, %lu ran", &t, &r);
-            vh::emit("runcount %lu", r);
-            vh::emit("failures %lu", f);
+            vh::emit("runcount %ld", g_rec_started);
+            vh::emit("failures %ld", g_rec_failures);
             vh::emit("overall %s", code != 0 ? "fail" : "ok");
             vh::emit("exitcode %d", code);
         }
-        bool errs = out.find("\nErrors (") != std::string::npos;
-        bool ok = out.find("\nOK (") != std::string::npos;
+        bool errs = out.find("Errors (") != std::string::npos;      // (with -c an escape sequence precedes it)
+        bool ok = out.find("OK (") != std::string::npos;
+        if (!errs && !ok) {                                          // JUnit only: <testsuite errors="0" failures="N" ...>
+            size_t pos = 0; bool any = false;
+            while ((pos = out.find("<testsuite errors=\"0\" failures=\"", pos)) != std::string::npos) {
+                pos += strlen("<testsuite errors=\"0\" failures=\"");
+                any = true;
+                if (atoi(out.c_str() + pos) > 0) errs = true;
+            }
+            if (any && !errs) ok = true;
+        }
         vh::emit("summary %s", errs && !ok ? "errors" : ok && !errs ? "ok" : "unclear");
         if (g_cli)
             for (size_t k = 0; k < n; k++)
@@ -480,6 +524,8 @@ void run_registry() {
     PlatformSpecificWaitPid = savedWait;
     PlatformSpecificFPuts = savedFPuts;
     PlatformSpecificFlush = savedFlush;
+    PlatformSpecificFOpen = savedFOpen;
+    PlatformSpecificFClose = savedFClose;
     if (g_console_fd >= 0) { close(g_console_fd); g_console_fd = -1; }
     signal(SIGALRM, SIG_DFL);
 }
@@ -495,6 +541,7 @@ void run_case(const vh::Case& c) {
     g_case_pid = getpid();
     g_tests.clear();
     g_cli = false;
+    g_cli_args.clear();
     g_nproc0 = false;
     bool ran = false;
 #ifdef VH_C11_NOFORK
@@ -553,8 +600,15 @@ void run_case(const vh::Case& c) {
             else vh::emit("forkfail supported");
             continue;
         }
-        else if (w[0] == "cli" && w.size() == 1 && !g_tests.empty() && !g_cli) {
-            g_cli = true; vh::emit_op("cli"); continue;
+        else if (w[0] == "cli" && w.size() <= 11 && !g_tests.empty() && !g_cli) {
+            bool okArgs = true, hasP = w.size() == 1;
+            for (size_t k = 1; k < w.size(); k++) { okArgs = okArgs && valid_cli_arg(w[k]); hasP = hasP || w[k] == "-p"; }
+            if (okArgs && hasP) {
+                g_cli = true;
+                g_cli_args.assign(w.begin() + 1, w.end());
+                if (g_cli_args.empty()) g_cli_args.push_back("-p");
+                vh::emit_op(c.raw[i]); continue;
+            }
         }
         else if (w[0] == "run" && w.size() == 1 && !g_tests.empty()) {
             vh::emit_op("run");
